@@ -152,7 +152,9 @@ class Workspace:
     def fingerprint(self) -> Dict[str, Any]:
         from qce_circuit.addon_stim.factory_manager import to_stim
         c = self.circuit
+        first_duration = float(c.duration)        # asked before anything lists the circuit (again)
         fp = fingerprint(c)
+        fp["duration_before_listing"] = first_duration
         fp["stim"] = str(to_stim(c))
         cp = c.circuit_structure.copy()
         ops = cp.decomposed_operations()
@@ -169,6 +171,9 @@ def diff_fp(a, b) -> Optional[str]:
     d = fp_diff(a, b)
     if d:
         return d
+    if abs(a.get("duration_before_listing", 0.0) - b.get("duration_before_listing", 0.0)) > 1e-9:
+        return (f"duration asked before the next listing: {a['duration_before_listing']} vs {b['duration_before_listing']} "
+                f"(after a listing both report {a['duration']})")
     if a["stim"] != b["stim"]:
         x, y = a["stim"].splitlines(), b["stim"].splitlines()
         i = next((i for i, (p, q) in enumerate(zip(x, y)) if p != q), min(len(x), len(y)))
